@@ -534,14 +534,15 @@ func corruptTrace(path, what string) {
 	}
 	lines := strings.Split(strings.TrimSpace(string(raw)), "\n")
 	done := false
-	for k := len(lines) / 2; k < len(lines) && !done; k++ {
+	for off := 0; off < len(lines) && !done; off++ {
+		k := (len(lines)/2 + off) % len(lines)
 		var l traceLine
-		if json.Unmarshal([]byte(lines[k]), &l) != nil || l.Obs == nil || l.A != "IndexApply" {
+		if json.Unmarshal([]byte(lines[k]), &l) != nil || l.Obs == nil || l.A == "Reset" {
 			continue
 		}
 		for p, m := range l.Obs.Idx {
 			for id, h := range m {
-				if len(h) >= 1 && h[0] != absentMark {
+				if !(len(h) == 1 && h[0] == absentMark) {
 					l.Obs.Idx[p][id] = []string{absentMark}
 					done = true
 					break
